@@ -6,7 +6,7 @@ CURRENT tree as an in-memory overlay, never written under /repo) must be reporte
 against the expected rule. A seed whose pattern no longer occurs is skipped and listed;
 a seed that applies but is not reported makes the check fail as BROKEN (exit 2, no
 VIOLATION line). The battery only runs when the tree itself is clean."""
-import json, os, subprocess, sys, tempfile, time, glob, concurrent.futures
+import json, os, shutil, subprocess, sys, tempfile, time, glob, concurrent.futures
 
 def main():
     pid, repo = sys.argv[1], sys.argv[2]
@@ -57,8 +57,40 @@ def main():
             return dict(seed=name, status="detected", by=hit[0][:200], what=sd.get("what", ""))
         anyv = [l for l in out.splitlines() if l.startswith("VIOLATED") or l.startswith("NOT-ESTABLISHED")]
         return dict(seed=name, status="MISSED", expected=sd["expect"], got=anyv[:3], what=sd.get("what", ""))
+    # independent mutants kept under seeded/: applied (patch.diff) to temporary copies of the touched files
+    def run_mutant(d):
+        name = "seeded/" + os.path.basename(d)
+        meta = json.load(open(os.path.join(d, "meta.json")))
+        expect = [c for c in meta.get("caught_by", []) if c.startswith(pid + ".")]
+        if not expect:
+            return None
+        patch = open(os.path.join(d, "patch.diff")).read()
+        files = [l[6:].strip() for l in patch.splitlines() if l.startswith("+++ b/")]
+        tmp = tempfile.mkdtemp()
+        try:
+            for f in files:
+                os.makedirs(os.path.dirname(os.path.join(tmp, f)), exist_ok=True)
+                shutil.copy(os.path.join(repo, f), os.path.join(tmp, f))
+            pr = subprocess.run(["patch", "-p1", "-s", "-d", tmp], input=patch, text=True, stdout=subprocess.PIPE, stderr=subprocess.STDOUT)
+            if pr.returncode != 0:
+                return dict(seed=name, status="skipped", why="patch no longer applies to this tree")
+            args = []
+            for f in files:
+                args += ["-overlay", os.path.join(repo, f) + "=" + os.path.join(tmp, f)]
+            q = subprocess.run(base + ["-tier", "quick", "-no-evidence"] + args, stdout=subprocess.PIPE, stderr=subprocess.STDOUT, text=True)
+        finally:
+            shutil.rmtree(tmp, ignore_errors=True)
+        out = q.stdout
+        if "type-check/load errors" in out:
+            return dict(seed=name, status="skipped", why="mutant does not type-check on this tree")
+        hit = [l for l in out.splitlines() if (l.startswith("VIOLATED") or l.startswith("NOT-ESTABLISHED")) and any(e in l for e in expect)]
+        if q.returncode == 1 and hit:
+            return dict(seed=name, status="detected", by=hit[0][:200], what=meta.get("needs_to_manifest", ""))
+        anyv = [l for l in out.splitlines() if l.startswith("VIOLATED") or l.startswith("NOT-ESTABLISHED")]
+        return dict(seed=name, status="MISSED", expected=expect, got=anyv[:3])
     with concurrent.futures.ThreadPoolExecutor(max_workers=8) as ex:
         results = list(ex.map(run_seed, seeds))
+        results += [x for x in ex.map(run_mutant, sorted(glob.glob(os.path.join(here, "seeded", "*-*")))) if x]
     missed = [r for r in results if r["status"] == "MISSED"]
     detected = [r for r in results if r["status"] == "detected"]
     skipped = [r for r in results if r["status"] == "skipped"]
